@@ -22,13 +22,20 @@ MODULE = 'PyPhysim.Properties.C04'
 DRIVER = 'drv_c04'
 CLAIM = {
     'technique': 'Lean 4 theorems (Mathlib matrices over C, complex exponential/argument, positive-definiteness, '
-                 'limits) about an executable polymorphic model of mimo.py; LAPACK kernels and gmd are contract '
-                 'parameters; seeded differential correspondence at binary64 with tapped kernel calls',
+                 'limits) about an executable polymorphic model of mimo.py; LAPACK kernels are contract '
+                 'parameters, the gmd sweep is the proved executable model shared with C20 (the contract-conditional '
+                 'forms are kept); seeded differential correspondence at binary64 with tapped kernel calls',
     'text': 'Kernel-checked for every antenna configuration, every channel of full column rank (no bound on size or '
             'condition number), every block length and every noise variance: decode(H encode(x)) = x symbol by '
             'symbol for Blast and MRC with the zero-forcing filter (under the Moore-Penrose contract of pinv), SVD '
-            'MIMO (under the svd contract, code after the full_matrices=False repair), GMD MIMO (under the '
-            'Q R P^H = H, P^H P = 1 contract of gmd), MRT (any channel with a non-zero tap; uses '
+            'MIMO (under the svd contract, code after the full_matrices=False repair), GMD MIMO (twice: '
+            'gmd_roundtrip under the Q R P^H = H, P^H P = 1 contract, for any routine satisfying it; and '
+            'gmd_roundtrip_from_svd / gmd_encode_energy_from_svd / gmd_equal_gain_layers_from_svd from the contract '
+            'of the full np.linalg.svd ALONE, 1 <= Nt <= Nr, positive sorted singular values: the executable model '
+            'of the Givens sweep of util.misc.gmd raises nothing and the Q, R, P it returns give the round trip, '
+            'the energy clauses, Q^H (H P) = R upper triangular with the geometric mean of the singular values on '
+            'the whole diagonal, Q R = H P; positive singular values with Nt <= Nr are proved to be full column '
+            'rank), MRT (any channel with a non-zero tap; uses '
             'z exp(-j arg z) = |z|) and Alamouti (pure algebra, any non-zero Nr x 2 channel); encode rejects exactly '
             'the block lengths that are not a multiple of the layers and the constructors reject exactly the channel '
             'shapes the scheme cannot use; every channel use radiates 1/Nt of the energy of the symbols it carries '
@@ -59,12 +66,32 @@ CLAIM = {
             'round trip, energy and all observables against a setter-configured object for every scheme x path x '
             'layout on each run. An exception raised by the library anywhere in a correspondence step is recorded as '
             'a broken correspondence and the run continues to the oracles (never a harness crash).',
-    'note': 'Oracle-conditional: correctness of np.linalg.pinv / solve / svd and of the Givens sweep inside '
-            'util.misc.gmd is a contract checked numerically on every case (Moore-Penrose conditions, A W = B, '
-            'U S V^H = A with orthonormal factors, Q R P^H = A with unitary Q, P and upper-triangular R of constant '
-            'diagonal), not a theorem; only one 2x2 Givens step of gmd is proved (gmd_step_preserves). SVD and GMD '
-            'call their kernel once in the precoder and once in the receive filter: the theorems assume the '
-            'factorisation with the factors of both calls (checked per case), i.e. determinism of the kernel. '
+    'note': 'Oracle-conditional: correctness of the LAPACK kernels np.linalg.pinv / solve / svd is a contract '
+            'checked numerically on every case (Moore-Penrose conditions, A W = B, U S V^H = A with orthonormal '
+            'factors), not a theorem. The Givens sweep inside util.misc.gmd is NO LONGER only a contract: '
+            'gmd_contract_from_svd (Proofs/C04GmdFromSvd.lean on top of Proofs/C20GmdInv*.lean, gmd_sound at K = C) '
+            'proves that the executable array model of the sweep (Model/C20Gmd.lean, statement by statement the body '
+            'of gmd, instantiated at C as the drivers instantiate it at binary64; sigma_bar = exp(mean(log S)) read '
+            'over the reals) returns, for every full SVD contract with p = min(Nr, Nt) >= 1 positive non-increasing '
+            'singular values, .ok (Q, R, P) with Q R P^H = H, P^H P = 1, Q^H Q = 1, R upper triangular with constant '
+            'diagonal sigma_bar -- the hypothesis of gmd_roundtrip / encode_energy_gmd -- and the ..._from_svd '
+            'theorems instantiate them with it. What is proved is a statement about that MODEL of the sweep; the '
+            'model is hand-written (not regenerated from the AST) and tied to util.misc.gmd by the C20 correspondence '
+            '(drv_c20 `gmd` lines: Q, R, P of the real function against the compiled model on the same U, S, V^H, '
+            'real and complex, tol = 0 and tol > 0) and, in this check, by the per-case numeric contract check of '
+            'what the real gmd returned inside GMDMimo (Q R P^H = A, unitary Q, P, triangular R with constant '
+            'diagonal = geometric mean; a violation is reported with the channel as a finding, call `gmd`) together '
+            'with the tapped-call comparison that gmd is handed exactly what svd(channel) returned; a change of the '
+            'C20 model breaks the build of this property. gmd_roundtrip / encode_energy_gmd are kept as the '
+            'contract-conditional forms (any gmd satisfying the contract). Still contract, not theorem, in the '
+            '..._from_svd forms: LAPACK svd (IsFullSvd) and pinv (Moore-Penrose on the equivalent channel Q R; solve '
+            'for the MMSE branch, which has no round-trip claim); binary64 rounding of the sweep is outside every '
+            'theorem. The real GMDMimo (and SVDMimo) calls numpy`s SVD TWICE on the same array -- once in '
+            '_calc_precoder (keeps P, resp. V^H) and once in _calc_receive_filter (keeps Q, R, resp. U, S): the '
+            'theorems use ONE triple (U, S, V^H) for both calls, i.e. assume that np.linalg.svd is a deterministic '
+            'function of the array contents (two different valid SVDs of one channel would not fit together); the '
+            'harness checks Q R (filter call) P^H (precoder call) = H on every case (contract gmd-two-calls). Only '
+            'the 2x2 algebra of one Givens step is restated on its own (gmd_step_preserves). '
             'Trusted additions: binary64 rounding (comparisons at 1e-9 relative; measured agreement ~1e-15), the '
             'tap on the kernel calls, the harness. Defects found and fixed: SVDMimo receive filter for Nr > Nt; '
             'Alamouti negations wrapping for unsigned-integer arrays; MRT phases in half/single precision for '
